@@ -1162,12 +1162,13 @@ class PathCtx:
     def _check(self, *extra):
         """portfolio: fresh (simplify, solve-eqs, nlsat) solver first, the incremental smt solver second"""
         t0 = time.time()
+        p0 = time.process_time()
         IN_SOLVER[0] += 1
         try:
             return self._check_inner(t0, *extra)
         finally:
             IN_SOLVER[0] -= 1
-            IN_SOLVER[1] += time.time() - t0
+            IN_SOLVER[1] += time.process_time() - p0
 
     def _check_inner(self, t0, *extra):
         self.n_queries += 1
